@@ -14,6 +14,20 @@ TV = 'translation_validation'
 
 # id -> (category, text, design_ref, level_note, technique)
 CLAIMS = {
+    'C04': (MC,
+            'FdlPartial defines which objects are fresh (an ArgFactory or a container holding one) and constructs '
+            'the joint result graph of a sequence of calls of the built callable, so that "fresh per call", "built '
+            'once and shared by every call", "passed through uncopied" and "override wins" are statements about '
+            'identities in one canonical form; TLC checks FreshAcrossCalls, BuiltOnce and OverrideWins for every '
+            'Partial/ArgFactory/Config/container nesting in the bound and every call sequence with overrides. Each '
+            '(nesting, call sequence) is replayed: fdl.build once, the calls in order, the results projected jointly '
+            'and compared with the specification, and the number of callables invoked at build time; random deeper '
+            'nestings are judged by Trace_C04; scenarios cover a functools.partial reference, Partial inside '
+            'Partial, positional (*args) arguments and one ArgFactory instance used twice.',
+            'DESIGN.md §5 C04',
+            'Trusted: TLC, harness projection. Domain: an ArgFactory has a single use and is not an argument of a '
+            'Config (documented misuse). Whether an overridden factory still runs is not observed.',
+            'TLA+ joint-result semantics with laws checked by TLC; replay of build + call sequences'),
     'C16': (MC,
             'FdlHist states the history clauses as predicates over one operation on FdlStore (DeltaOK: with tracking '
             'on, every storage key whose value changed gains exactly one entry reflecting the new state, an '
